@@ -199,21 +199,22 @@ class RDACDatagramProtocol(DatagramProtocol, LoggingTrait):
         self.transport: Optional[transports.DatagramTransport] = None
         self.callback: RDAC_FINISHED_CALLBACK_TYPE = callback
         self.storage: RepeaterStorage = storage
-        self.step: Dict[str, int] = dict()
+        # identification step per peer (ip, port): peers behind one address do not share a run
+        self.step: Dict[ADDRESS_TYPE, int] = dict()
 
     def step0(self, _: bytes, address: ADDRESS_TYPE) -> None:
         self.log_debug("RDAC identification started")
-        self.step[address[0]] = 1
+        self.step[address] = 1
         self.transport.sendto(self.STEP0_REQUEST, address)
 
     def step1(self, data: bytes, address: ADDRESS_TYPE) -> None:
         if data[: len(self.STEP0_RESPONSE)] == self.STEP0_RESPONSE:
-            self.step[address[0]] = 2
+            self.step[address] = 2
             self.transport.sendto(self.STEP1_REQUEST, address)
 
     def step2(self, data: bytes, address: ADDRESS_TYPE) -> None:
         if data[: len(self.STEP1_RESPONSE)] == self.STEP1_RESPONSE:
-            self.step[address[0]] = 3
+            self.step[address] = 3
 
     def step3(self, data: bytes, address: ADDRESS_TYPE) -> None:
         if data[: len(self.STEP2_RESPONSE)] == self.STEP2_RESPONSE:
@@ -221,18 +222,18 @@ class RDACDatagramProtocol(DatagramProtocol, LoggingTrait):
                 address=address,
                 patch={"dmr_id": int.from_bytes(data[18:21], byteorder="little")},
             )
-            self.step[address[0]] = 4
+            self.step[address] = 4
             self.transport.sendto(self.STEP3_REQUEST, address)
 
     def step4(self, data: bytes, address: ADDRESS_TYPE) -> None:
         if data[: len(self.STEP3_RESPONSE)] == self.STEP3_RESPONSE:
-            self.step[address[0]] = 5
+            self.step[address] = 5
             self.transport.sendto(self.STEP4_REQUEST_1, address)
             self.transport.sendto(self.STEP4_REQUEST_2, address)
 
     def step5(self, data: bytes, address: ADDRESS_TYPE) -> None:
         if data[: len(self.STEP4_RESPONSE_1)] == self.STEP4_RESPONSE_1:
-            self.step[address[0]] = 6
+            self.step[address] = 6
 
     def step6(self, data: bytes, address: ADDRESS_TYPE) -> None:
         if data[: len(self.STEP4_RESPONSE_2)] == self.STEP4_RESPONSE_2:
@@ -264,7 +265,7 @@ class RDACDatagramProtocol(DatagramProtocol, LoggingTrait):
                 .strip(b"\x00")
                 .decode("utf-8")
             )
-            self.step[address[0]] = 7
+            self.step[address] = 7
             self.storage.save(
                 self.storage.match_incoming(address=address),
                 {
@@ -279,12 +280,12 @@ class RDACDatagramProtocol(DatagramProtocol, LoggingTrait):
 
     def step7(self, data: bytes, address: ADDRESS_TYPE) -> None:
         if data[: len(self.STEP6_RESPONSE)] == self.STEP6_RESPONSE:
-            self.step[address[0]] = 8
+            self.step[address] = 8
             self.transport.sendto(self.STEP7_REQUEST, address)
 
     def step8(self, data: bytes, address: ADDRESS_TYPE) -> None:
         if data[: len(self.STEP7_RESPONSE_1)] == self.STEP7_RESPONSE_1:
-            self.step[address[0]] = 10
+            self.step[address] = 10
 
     def step10(self, data: bytes, address: ADDRESS_TYPE) -> None:
         if data[: len(self.STEP7_RESPONSE_2)] == self.STEP7_RESPONSE_2:
@@ -292,7 +293,7 @@ class RDACDatagramProtocol(DatagramProtocol, LoggingTrait):
             self.log_error(f"Unknown HyteraRepeaterMode value {hytera_repeater_mode}")
             tx_freq = int.from_bytes(data[29:33], byteorder="little")
             rq_freq = int.from_bytes(data[33:37], byteorder="little")
-            self.step[address[0]] = 11
+            self.step[address] = 11
             self.storage.match_incoming(
                 address=address,
                 patch={
@@ -304,17 +305,17 @@ class RDACDatagramProtocol(DatagramProtocol, LoggingTrait):
 
     def step11(self, data: bytes, address: ADDRESS_TYPE) -> None:
         if data[: len(self.STEP10_RESPONSE_1)] == self.STEP10_RESPONSE_1:
-            self.step[address[0]] = 12
+            self.step[address] = 12
 
     def step12(self, data: bytes, address: ADDRESS_TYPE) -> None:
         if data[: len(self.STEP10_RESPONSE_2)] == self.STEP10_RESPONSE_2:
-            self.step[address[0]] = 13
+            self.step[address] = 13
             self.transport.sendto(self.STEP12_REQUEST_1, address)
             self.transport.sendto(self.STEP12_REQUEST_2, address)
 
     def step13(self, data: bytes, address: ADDRESS_TYPE) -> None:
         if data[: len(self.STEP12_RESPONSE)] == self.STEP12_RESPONSE:
-            self.step[address[0]] = 14
+            self.step[address] = 14
             self.log_debug("rdac completed identification")
 
             rpt = self.storage.match_incoming(address=address)
@@ -338,11 +339,11 @@ class RDACDatagramProtocol(DatagramProtocol, LoggingTrait):
     def datagram_received(self, data: bytes, addr: ADDRESS_TYPE) -> None:
         self.storage.match_incoming(address=addr, auto_create=True)
 
-        if not self.step.get(addr[0]):
-            self.step[addr[0]] = 0
+        if not self.step.get(addr):
+            self.step[addr] = 0
 
-        if len(data) == 1 and self.step[addr[0]] != 14:
-            if self.step[addr[0]] == 4:
+        if len(data) == 1 and self.step[addr] != 14:
+            if self.step[addr] == 4:
                 self.log_error(
                     "check repeater zone programming, if Digital IP"
                     "Multi-Site Connect mode allows data pass from timeslots"
@@ -350,13 +351,13 @@ class RDACDatagramProtocol(DatagramProtocol, LoggingTrait):
             self.log_error(
                 "restart process if response is protocol reset and current step is not 14"
             )
-            self.step[addr[0]] = 0
+            self.step[addr] = 0
             self.step0(data, addr)
-        elif len(data) != 1 and self.step[addr[0]] == 14:
+        elif len(data) != 1 and self.step[addr] == 14:
             self.log_error("RDAC finished, received extra data %s" % hexlify(data))
-        elif len(data) == 1 and self.step[addr[0]] == 14:
+        elif len(data) == 1 and self.step[addr] == 14:
             if data[0] == 0x00:
                 # no data available response
                 self.transport.sendto(bytes(0x41), addr)
         else:
-            getattr(self, "step%d" % self.step[addr[0]])(data, addr)
+            getattr(self, "step%d" % self.step[addr])(data, addr)
